@@ -1,4 +1,6 @@
 ENGINES = [
+    {"name": "W", "path": "vlib/wenv.py", "serves_properties": ["C02", "C05", "C08", "C09", "C15", "C18", "C19"],
+     "kind_free_text": "real Sync/Thread/Gevent/Eventlet worker objects (no fork) serving scripted fake sockets through handle(); generated WSGI application programs; capturing real glogging.Logger"},
     {"name": "P", "path": "vlib/penv.py", "serves_properties": ["C01", "C06", "C07", "C12"],
      "kind_free_text": "real RequestParser over segmented in-memory sources; Hypothesis generators + independent RFC 9112 reference reader"},
 ]
@@ -27,4 +29,11 @@ CHECKS = [
              "Limit* rejection; and an enumerated family of endless sources (request line, header line/block, chunk-size line, chunk extension, trailer "
              "line/block, PROXY line) x configs x read sizes must be rejected before B(cfg) bytes are consumed.",
      "note": "2-byte band at each size boundary (size with or without CRLF); 0=unlimited exempts the item it unlimits; B(cfg)=2*(line+max_buffer_headers)+64KiB"},
+    {"id": "C02", "engine": "W",
+     "technique": "property-based testing (Hypothesis) of generated requests x generated WSGI application programs against an independent strict HTTP response reader",
+     "text": "Pipelined request heads x application programs (status, headers, list/generator/write()/file_wrapper bodies, failure points) x 4 worker "
+             "classes x keep-alive x sendfile are served by the real handle() on a scripted socket; the bytes the client received are parsed by an "
+             "independent strict reader: one final response per call, body equals output cut to Content-Length, framing consistent with the head, "
+             "exactly one terminating chunk, nothing after the last response, keep-alive only when self-delimiting/not refused/announced.",
+     "note": "fake socket instead of a kernel socket (sendfile emulated with pread); misbehaving applications excluded; client sends everything then half-closes"},
 ]
